@@ -6,6 +6,8 @@ mod gen;
 mod imp;
 mod props_direct;
 mod props_validate;
+mod props_validate2;
+mod props_runtime;
 mod refspec;
 mod util;
 
@@ -50,17 +52,17 @@ fn main() {
         "C04" => props_validate::c04(&mut ctx),
         "C05" => props_validate::c05(&mut ctx),
         "C06" => props_direct::c06(&mut ctx),
-        "C08" => props_validate::c08(&mut ctx),
+        "C08" => props_validate2::c08(&mut ctx),
         "C09" => props_direct::c09(&mut ctx),
         "C10" => props_direct::c10(&mut ctx),
-        "C11" => props_validate::c11(&mut ctx),
-        "C12" => props_validate::c12(&mut ctx),
-        "C13" => props_validate::c13(&mut ctx),
-        "C14" => props_validate::c14(&mut ctx),
-        "C15" => props_validate::c15(&mut ctx),
+        "C11" => props_validate2::c11(&mut ctx),
+        "C12" => props_validate2::c12(&mut ctx),
+        "C13" => props_validate2::c13(&mut ctx),
+        "C14" => props_validate2::c14(&mut ctx),
+        "C15" => props_validate2::c15(&mut ctx),
         "C16" => props_direct::c16(&mut ctx),
-        "C17" => props_validate::c17(&mut ctx),
-        "C18" => props_validate::c18(&mut ctx),
+        "C17" => props_runtime::c17(&mut ctx),
+        "C18" => props_runtime::c18(&mut ctx),
         "C19" => props_validate::c19(&mut ctx),
         _ => {
             eprintln!("unknown property {}", prop);
